@@ -1894,7 +1894,12 @@ class SourceFinder(object):
                     C = B = None
                 errs = np.nanmax(
                     rmsimg[int(xmin): int(xmax), int(ymin): int(ymax)])
-                result, _ = do_lmfit(idata, params, B=B)
+                try:
+                    result, _ = do_lmfit(idata, params, B=B)
+                except AegeanNaNModelError:
+                    # this island can not be fit, skip it (as is done in
+                    # blind source finding) instead of aborting the run
+                    continue
                 model = covar_errors(result.params, idata, errs=errs, B=B, C=C)
 
             # convert the results to a source object
